@@ -588,6 +588,29 @@ func TestVerifC34(t *testing.T) {
 		}
 	})
 
+	// Long histories: the wallet's main UTXO buried under many later transactions that
+	// pay the wallet address (spam, dust): the lookup must still find it, however far back.
+	for _, h := range []string{
+		"D" + strings.Repeat("a", 11), "aD" + strings.Repeat("b", 12), "DR" + strings.Repeat("c", 15),
+		"M" + strings.Repeat("abc", 8), "aDcR" + strings.Repeat("a", 40),
+	} {
+		for mp := 0; mp <= 1; mp++ {
+			w := c34Build(h, mp)
+			if !w.valid {
+				r.Add("histories_not_constructible", 1)
+				continue
+			}
+			hashes, _ := c34Registered(w)
+			for reg := range hashes {
+				c := c34Case{h, mp, reg, false}
+				res := c34Run(r, c, w, false)
+				r.Eval(1)
+				r.Distinct(fmt.Sprintf("%s|%d|%d|long", h, mp, reg))
+				r.Outcome("determine:" + res.determine)
+			}
+		}
+	}
+
 	// Probe (not part of the verdict, see NOTES.md): a third party refunds a revealed
 	// deposit to the wallet address at output 0. Counted, never reported as violation.
 	probeBlocked, probeCases := 0, 0
